@@ -155,7 +155,9 @@ class LoopSpec:
             except ContinueSignal:
                 pass
             except BreakSignal:
-                raise Unsupported('break inside a loop with invariant')
+                # leaving the loop from an arbitrary iteration: the path continues after the loop (else skipped)
+                I.st.ghost['_broke_at'] = VSeq(P, k)
+                return
             self._check(I, fr, {'_P': VSeq(z3.Concat(P, z3.Unit(m)), k), '_S': S, '_R': VSeq(R, k)}, 'step')
             raise PathEnd()
         self.havoc(I, fr)
